@@ -225,9 +225,9 @@ class Neo4jCBMGraph(Neo4jPropertyGraph, ABCCBMPropertyGraph):
                                                           msg=f'This node had more than one delegation, remaining:'
                                                               f'{delegations}')
                     # under normal circumstances we should erase the delegation after unmerge if
-                    # it belonged to the graph being removed
-                    self.update_node_property(node_id=node, prop_name=del_prop,
-                                              prop_val='')
+                    # it belonged to the graph being removed (removing the property - an empty string
+                    # is not valid JSON for the readers of this property)
+                    self.unset_node_property(node_id=node, prop_name=del_prop)
 
         # remove the merged nodes
         for node in delete_nodes:
